@@ -781,7 +781,10 @@ def consistency(fs, check_csums=True):
         exp = n
         if is_dir.get(ino) and fs.ro_compat & RO_DIR_NLINK and n > 65000:
             exp = 1
-        if i["links"] != exp and not (is_dir.get(ino) and i["links"] == 1 and fs.ro_compat & RO_DIR_NLINK):
+        # a link count of 1 on a directory says "more subdirectories than the field can count / not counted": with the
+        # dir_nlink feature for every directory, and (e2fsck pass 4, PR_4_DIR_OVERFLOW_REF_COUNT: "fix this but don't
+        # consider it an error") for an indexed directory also without the feature
+        if i["links"] != exp and not (is_dir.get(ino) and i["links"] == 1 and (fs.ro_compat & RO_DIR_NLINK or i["flags"] & INDEX_FL)):
             add("links", "inode %d link count %d, %d references" % (ino, i["links"], n))
     # attribute blocks: magic and reference count = number of inodes pointing at the block
     for b, nref in sorted(xrefs.items()):
